@@ -229,3 +229,8 @@ for _k, _v in _MORE.items():
 _MORE2 = {'C02': "Two registrations in three are spelled non-canonically (no blank or two blanks after ':'); static segments may contain escapes (a%20b) and are also requested under their decoded spelling.", 'C04': 'The universe has an interface with unexported methods; some Apply targets have their tagged fields pre-populated; a look-up that misses may be followed by a Set of an implementor and the same look-up again.', 'C05': 'Also in the workload: Static with ETags (files requested alongside), four routes of the built-in func() (int, string) shape with their own status and body, a HandlerWrapper, a plain func(Context) not-found handler.', 'C07': 'A header-less miss is followed by the same request with its headers again.', 'C08': "One case in twelve starts with a fixed sequence: two routes that differ by a '?' inside an expression (both accepted) and two different middle match-alls at one position next to a static sibling (the second refused).", 'C09': 'Header values may have leading/trailing blanks, be blank only, or carry a 1030-byte prefix.', 'C12': 'After a build with two pairs the same route is built again with the second pair folded into the value of the first.', 'C13': 'One WriteHeader in six is a pair (cwh c1 c2): the second call arrives while the first is inside the underlying writer; judged as the two calls one after the other.', 'C14': 'Also a []byte behind a pointer or an interface{} (RPtrB), concrete error types as declared result types, statuses 599 and 600.', 'C15': 'In a third of the cases the scripted panic values rotate from request to request (string, error, struct, string, http.ErrAbortHandler).', 'C16': 'Method look-alikes G, HE, EAD, T,H.', 'C17': 'Text that is not valid UTF-8 (PlainText, Binary); in a quarter of the cases an application-wide default Renderer() precedes the configured one.'}
 for _k, _v in _MORE2.items():
     PROPS[_k]["rule"] = PROPS[_k]["rule"].rstrip() + " " + _v
+
+# widenings of rounds 9 and 10
+_MORE3 = {'C01': 'One case in fifteen registers 14 equally ranked regex leaves under one node with static and placeholder leaves in between.', 'C02': 'Paths with one letter in the other case.', 'C04': 'Also Map((*svcA)(nil)) and svcA as a value type (pointer-receiver methods).', 'C05': 'Handlers pass one pairs slice shared by all requests of an instance to URLPath; the request Logger is installed.', 'C06': 'Also tokens of 300 characters.', 'C09': 'Request headers may be sent twice (the first value counts).', 'C12': 'One Name call in four is repeated; values with ? and #.', 'C18': 'Accessors may get two defaults; mixed-case boolean spellings.'}
+for _k, _v in _MORE3.items():
+    PROPS[_k]["rule"] = PROPS[_k]["rule"].rstrip() + " " + _v
